@@ -166,12 +166,12 @@ class FilesystemRegistry(AbstractRegistry):
         )
 
     def __getitem__(self, item):
-        files = ("{}.{}".format(item, extension) for extension in self._extensions)
-        for name in files:
-            if self.fs.isfile(name):
-                with self.fs.open(name) as handle:
+        for f in self.fs.filterdir("/", files=self._files, exclude_dirs=["*"]):
+            name, _ = splitext(f.name)
+            if name == item:
+                with self.fs.open(f.name) as handle:
                     record = CircularRecord(Bio.SeqIO.read(handle, "genbank"))
-                    record.id, _ = splitext(name)
+                    record.id = name
                 return Item(
                     id=record.id,
                     name=record.description,
